@@ -3,6 +3,7 @@ import copy
 import math
 
 from ..core import World, Violation, Skip
+from ..filekit import side_stream
 
 H2O_LOW = [4.19864056E+00, -2.03643410E-03, 6.52040211E-06, -5.48797062E-09, 1.77197817E-12, -3.02937267E+04,
            -8.49032208E-01]
@@ -29,7 +30,7 @@ class WorldC08(World):
     PROBES = ('species-in-three-reactions', 'condition-dict-reused', 'block-for-one-species', 'block-for-absent-species',
               'fractional-stoichiometry', 'two-transition-state-species', 'species-on-both-sides', 'edit-then-evaluate',
               'rev-and-act', 'Keq-product', 'chemkin-unclamped', 'surface-unclamped', 'mixed-model-classes', 'q-ratio',
-              'from-string', 'bep-transition-state', 'bep-shared-by-two-reactions', 'flags-as-numpy-bool', 'flags-as-int',
+              'from-string', 'coefficients-as-numpy-array', 'bep-transition-state', 'bep-shared-by-two-reactions', 'flags-as-numpy-bool', 'flags-as-int',
               'Keq-of-activation', 'arrhenius-Ea-explicit-molecularity', 'two-reactions-from-one-string',
               'coefficients-edited-in-place', 'rejected-call-then-valid-calls', 'dimensional-getters',
               'electronic-energy-with-ZPE', 'q-of-activation', 'species-with-constant-mode')
@@ -82,6 +83,14 @@ class WorldC08(World):
 
     # ------------------------------------------------------------------ gen
     def gen_op(self, rng):
+        side = side_stream(rng)
+        op = self._gen_op0(rng)
+        if op is not None and op.get('op') == 'mkrxn' and not op['args'].get('from_string') and side.random() < 0.3:
+            # coefficients handed over as numpy arrays (the result of a linear-algebra step) instead of lists
+            op['args']['stoich_as'] = 'array'
+        return op
+
+    def _gen_op0(self, rng):
         sw = self.ctx.swarm
         c = rng.randrange(sw['n_clients'])
         if len(self.sp) < sw['n_species']:
@@ -298,6 +307,11 @@ class WorldC08(World):
             kw = dict(reactants=R, reactants_stoich=[n for _, n in a['reactants']], products=P,
                       products_stoich=[n for _, n in a['products']], transition_state=TS,
                       transition_state_stoich=[n for _, n in a['ts']] if TS else None)
+            if a.get('stoich_as') == 'array':
+                for k_ in ('reactants_stoich', 'products_stoich', 'transition_state_stoich'):
+                    if kw[k_] is not None:
+                        kw[k_] = self.np.array(kw[k_], dtype=float)
+                ctx.probe('coefficients-as-numpy-array')
             if a.get('bep') is not None:
                 kw.update(transition_state=[self.bep[a['bep']]], transition_state_stoich=[1])
                 if any(m.get('bep') == a['bep'] for m in self.rxm.values()):
